@@ -94,6 +94,7 @@ pub fn shared_stream_spaces(ctx: &Ctx, st: &mut Local, f: Sink) {
     e2_blockspace(ctx, "E2", st, f);
     e2_padspace(ctx, "E2p", st, f);
     e2_crossblock(ctx, "E2s", st, f);
+    e2_zlib_lookalikes(ctx, "E2z", st, f);
     e3_dynspace(ctx, "E3", st, f);
     e3_pairs(ctx, "E3pair", st, f);
     e3_tails(ctx, "E3tail", st, f);
